@@ -4,6 +4,12 @@ from rules import hayson, fields
 
 def check(ctx):
     rep = ctx.rep
+    from rules import tz as _tzz
+    nz = _tzz.check_zone_names(ctx, rep)
+    rep.floor("zone-name table obligations (T-ZONES)", nz, 2)
+    from rules import tz as _tzs
+    nsf = _tzs.check_strftime(ctx, rep)
+    rep.floor("time-of-day text writers", nsf, 3)
     from rules import tz as _tz
     _tz.check_utc_guard(ctx, rep)
     hayson.check_member_loop(ctx, rep)
